@@ -190,6 +190,42 @@ static void probe(unsigned pf, unsigned ps, unsigned pc, struct bytebuf *granted
 			xp_count("grants_visible", 1);
 		}
 	}
+	/* elements that appear AFTER the peer subscribed take the other delivery path (find fetchers for a new element) */
+	{
+		static const struct {
+			const char *path, *access;
+			unsigned fetch;
+		} LATE[] = {{"late_g1", "{\"fetchGroups\":[\"g1\"]}", G1}, {"late_g2", "{\"fetchGroups\":[\"g2\"]}", G2}, {"late_g3", "{\"fetchGroups\":[\"g3\"],\"setGroups\":[\"g1\",\"g2\"]}", G3}, {"late_none", NULL, 0}};
+		int from2 = clients[P].nmsgs;
+		for (size_t i = 0; i < sizeof(LATE) / sizeof(LATE[0]); i++) {
+			jx_sendf(O, "{\"id\":\"la%zu\",\"method\":\"add\",\"params\":{\"path\":\"%s\",\"value\":1%s%s}}", i, LATE[i].path, LATE[i].access ? ",\"access\":" : "", LATE[i].access ? LATE[i].access : "");
+			jx_sendf(O, "{\"id\":\"lc%zu\",\"method\":\"change\",\"params\":{\"path\":\"%s\",\"value\":2}}", i, LATE[i].path);
+			jx_settle();
+		}
+		for (size_t i = 0; i < sizeof(LATE) / sizeof(LATE[0]); i++) {
+			jx_sendf(O, "{\"id\":\"lr%zu\",\"method\":\"remove\",\"params\":{\"path\":\"%s\"}}", i, LATE[i].path);
+		}
+		jx_settle();
+		for (int k = from2; k < clients[P].nmsgs; k++) {
+			struct cl_msg *m = &clients[P].msgs[k];
+			if (m->cls != MC_NOTIFY) {
+				continue;
+			}
+			const cJSON *params = cJSON_GetObjectItemCaseSensitive(m->json, "params");
+			const cJSON *pa = params ? cJSON_GetObjectItemCaseSensitive(params, "path") : NULL;
+			for (size_t i = 0; i < sizeof(LATE) / sizeof(LATE[0]); i++) {
+				if (cJSON_IsString(pa) && strcmp(pa->valuestring, LATE[i].path) == 0) {
+					if ((LATE[i].fetch & pf) == 0) {
+						char key[160];
+						snprintf(key, sizeof(key), "visible-without-fetch-group:event-after-fetch:%s", LATE[i].access ? "declared" : "undeclared");
+						fail8(key, "%s: the peer (fetch groups 0x%x) subscribed first; it is then told about %s (fetch groups 0x%x): %.160s", phase, pf, LATE[i].path, LATE[i].fetch, m->text);
+					}
+					bb_printf(granted, "%s is told about %s\n", phase, LATE[i].path);
+					xp_count("grants_visible", 1);
+				}
+			}
+		}
+	}
 	/* set / call: accepted for routing = delivered to the owner */
 	for (int e = 0; e < NELEMS; e++) {
 		int fo = clients[O].nmsgs;
@@ -442,6 +478,6 @@ const struct driver drv_c08 = {
     .name = "c08",
     .property = "C08",
     .run = run,
-    .rule = "section 0: credential file with 6 users (group sets over g1..g3, auth objects that omit keys, an admin, a user without groups); 15 elements declaring fetch/set/call groups {none, g1, g2, g1+g2, mixed fetch/set, g3, an undefined group, fetch only, call only}; every sequence up to the depth bound of 10 authenticate actions (right, wrong password, another user's password, unknown user, six users) x 3 transports x 5 fill bytes of fresh heap memory x {probe suite only at the end, also before the last action}; probe suite = fetch all + get all + set every state + call every method; oracle: everything delivered / routed is covered by the groups of the last successful authentication (none if there was none), wrong credentials are refused, sequences with failing attempts grant exactly what the twin without them grants, password markers occur in no output byte and no log line; section 1: files with 30..33 groups x user group x element group over {0,1,15,29,30,31} x transport (bit 31 and beyond); section 2: add from 11 connection origins on the 3 listeners x fill bytes in the local-only build; non-trivial = all runs",
+    .rule = "section 0: credential file with 6 users (group sets over g1..g3, auth objects that omit keys, an admin, a user without groups); 15 elements declaring fetch/set/call groups {none, g1, g2, g1+g2, mixed fetch/set, g3, an undefined group, fetch only, call only}; every sequence up to the depth bound of 10 authenticate actions (right, wrong password, another user's password, unknown user, six users) x 3 transports x 5 fill bytes of fresh heap memory x {probe suite only at the end, also before the last action}; probe suite = fetch all + get all + the owner adding / changing / removing four further elements while the fetch is active + set every state + call every method; oracle: everything delivered / routed is covered by the groups of the last successful authentication (none if there was none), wrong credentials are refused, sequences with failing attempts grant exactly what the twin without them grants, password markers occur in no output byte and no log line; section 1: files with 30..33 groups x user group x element group over {0,1,15,29,30,31} x transport (bit 31 and beyond); section 2: add from 11 connection origins on the 3 listeners x fill bytes in the local-only build; non-trivial = all runs",
     .assumptions = "only the safety direction of the statement is judged (a grant must be covered by a group); denied accesses are counted, not judged|a credential file with more than 32 groups may be refused at start-up",
 };
